@@ -231,6 +231,9 @@ def _mk_call(sim, stacks, ev, res):
         elif op == 'ca_start':
             ca = st.cas[ev['ca']]
             st.call(('ca_start', sim.now, ev['ca'], ev['delay']), lambda: ca.start(ev['delay'] / 1e6))
+        elif op == 'ca_set_identity':
+            # the application changes a field of the NAME object it built the CA with (the identity number, the lowest 21 bits)
+            st.cas[ev['ca']]._name.identity_number = ev['value']
         elif op == 'ca_stop':
             ca = st.cas[ev['ca']]
             st.call(('ca_stop', sim.now, ev['ca']), lambda: ca.stop())
